@@ -87,7 +87,7 @@ Print Assumptions C02_delivered_is_log_segment.
    ends - or a refetch timer armed.  So the next unread offset is always about to be asked for; that the environment
    then answers, and the timer fires, is the environment's liveness and is not modelled ("eventually" stays a
    monitor).  Proved for every configuration and every event list (replies whose decoding raises mid-way are
-   outside the model: that case is finding F-C02-1, repaired in 3e037d7, and is watched by the same monitor on the
+   outside the model: that case is finding F-C02-1, repaired in 3e037d7 + 81ed5b2, and is watched by the same monitor on the
    implementation). *)
 Theorem C02_never_idle : forall fuel c maxatt buf evs,
   run_fuel_ok fuel c maxatt buf evs = true ->
